@@ -26,6 +26,9 @@ TNext == \/ IsEvent("Call") /\ Call(Ev.act[2], Ev.act[3]) /\ PinsMatch /\ CallMa
          \/ IsEvent("CallDropped") /\ CallDropped(Ev.act[2], Ev.act[3]) /\ PinsMatch /\ CallMatch
          \/ IsEvent("Redirected") /\ Redirected(Ev.act[2], Ev.act[3]) /\ PinsMatch /\ CallMatch
          \/ IsEvent("RedirectRotate") /\ RedirectRotate(Ev.act[2], Ev.act[3], Ev.act[4]) /\ PinsMatch /\ CallMatch
+         \/ IsEvent("CallRacing") /\ CallRacing(Ev.act[2], Ev.act[3], Ev.act[4]) /\ PinsMatch /\ CallMatch
+         \/ IsEvent("CallStoreFault") /\ CallStoreFault(Ev.act[2], Ev.act[3], Ev.act[4]) /\ PinsMatch /\ CallMatch
+         \/ IsEvent("ContextCycle") /\ ContextCycle /\ PinsMatch
          \/ IsEvent("Rotate") /\ Rotate(Ev.act[2], Ev.act[3]) /\ PinsMatch
          \/ IsEvent("Trust") /\ Trust(Ev.act[2], Ev.act[3]) /\ PinsMatch
          \/ IsEvent("Revoke") /\ Revoke(Ev.act[2]) /\ PinsMatch
